@@ -707,6 +707,130 @@ def m12c(res, mod, tier):
     return nq, pending
 
 
+def m12d(res, mod, tier):
+    """`StrName::parse_next_entity` (the scanner in front of entities::decode) with the ParseState contracts: for every input of <= L
+    characters (all of Unicode): the cursor advances; `decode` is called exactly on the stretch `&` ... `;` of the entity grammar
+    (`&#x` hex+ `;`, `&#` digit+ `;`, `&` letter+ `;`); if decode accepts, its text is returned and the whole reference is consumed; otherwise
+    exactly the `&` is consumed and returned verbatim (with one IllegalEntity diagnostic when the reference was well formed or a numeric
+    form was broken)."""
+    from mirsym.core import Opaque
+    pending = []
+    L = 7 if tier == 'thorough' else 6
+    byte_at = ps_env.byte_at
+    extra = []
+
+    def reg(rx):
+        def deco(f):
+            extra.append((rx, f))
+            return f
+        return deco
+
+    @reg(r'entities::decode$')
+    def decode(exe, path, callee, args, dst_ty):
+        sl = args[0]
+        if not (isinstance(sl, Opaque) and sl.tag == 'slice'):
+            raise MirUnsupported('decode of %r' % (sl,))
+        path.event('decode', sl.info['start'], sl.info['end'], ps_env.ps_state(path)[0])
+        no = path.clone()
+        no.event('decode-none')
+        dec = SeqV((z3.Int('decoded_%d' % path.new_fid()),))
+        return [('ret', path, contracts.some(Agg('Cow', 'Owned', {0: dec}))), ('ret', no, contracts.NONE)]
+
+    @reg(r"ParseState::<'_>::next_char_as_str$")
+    def next_char_as_str(exe, path, callee, args, dst_ty):
+        idx, w, a = ps_env.ps_state(path)
+        if idx >= L:
+            path.pc.append(z3.BoolVal(False))
+            return []
+        path.pc.append(inp_holder[0].n > idx)
+        ps_env.set_ps(path, idx=idx + 1)
+        path.event('verbatim', idx)
+        return [('ret', path, SeqV((inp_holder[0].chars[idx],)))]
+    inp_holder = [None]
+    # run_ps_client creates the Input: patch the holder through a tiny wrapper
+    orig_make = ps_env.make_table
+
+    def make_table(inp):
+        inp_holder[0] = inp
+        return orig_make(inp)
+    ps_env.make_table = make_table
+    try:
+        exe, inp, fn, done = targets.run_ps_client(mod, r'::parse_next_entity$', L, ascii_only=False, max_visits=L + 4, merge=False, extra_contracts=extra)
+    finally:
+        ps_env.make_table = orig_make
+    res.solver_time += exe.stats['solver_time']
+    for f in exe.findings:
+        pending.append(('exec:' + f.kind.split(',')[0], 'parse_next_entity: %s' % f.kind, inp.string_of(f.model) if f.model is not None else None, 'numeric'))
+    nq = 0
+    d = Decoder(exe, [])
+    cs = inp.chars
+    for q in done:
+        if q.status != 'returned':
+            continue
+        idx, warns, _ = q.env['ps']
+        base = exe.base + q.pc
+        decs = [e for e in q.events if e[0] == 'decode']
+        accepted = bool(decs) and not any(e[0] == 'decode-none' for e in q.events)
+        verb = [e for e in q.events if e[0] == 'verbatim']
+        nq += 1
+
+        def report(cls, what):
+            ok, model = exe.check(base, want_model=True)
+            res.query('sat' if ok else 'unsat')
+            if ok:
+                pending.append((cls, 'parse_next_entity(%r): %s' % (inp.string_of(model), what), inp.string_of(model), 'numeric'))
+        if idx < 1:
+            report('progress', 'the cursor does not advance')
+            continue
+        if len(decs) > 1:
+            report('decode', 'decode is called %d times' % len(decs))
+            continue
+        if decs:
+            # the stretch handed to decode: from the `&` at 0 to the cursor at the time of the call, which must sit right after a `;`
+            _, st, en, at = decs[0]
+            wf_slice = z3.And(st == byte_at(z3.IntVal(0)), en == byte_at(z3.IntVal(at)))
+            k = at
+            body = cs[1:k - 1]
+            hexd = lambda c: d.hexval(c) >= 0
+            dig = lambda c: z3.And(c >= 48, c <= 57)
+            let = lambda c: z3.Or(z3.And(c >= 65, c <= 90), z3.And(c >= 97, c <= 122))
+            forms = []
+            if k >= 4:
+                forms.append(z3.And([cs[1] == 35, cs[2] == 120] + [hexd(c) for c in cs[3:k - 1]]))      # `&#x` hex* `;` (an empty number is rejected by decode)
+            if k >= 4:
+                forms.append(z3.And([cs[1] == 35] + [dig(c) for c in cs[2:k - 1]]))
+            if k >= 3:
+                forms.append(z3.And([let(c) for c in body]))
+            grammar = z3.And(cs[0] == 38, cs[k - 1] == 59, z3.Or(forms) if forms else z3.BoolVal(False)) if k >= 3 else z3.BoolVal(False)
+            ok, model = exe.check(base + [z3.Not(z3.And(wf_slice, grammar))], want_model=True)
+            res.query('sat' if ok else 'unsat')
+            if ok:
+                pending.append(('grammar', 'decode is called on a stretch that is not `&` + reference + `;`', inp.string_of(model), 'numeric'))
+                continue
+        if accepted:
+            r = q.result
+            good = isinstance(r, Agg) and r.name == 'Cow' and idx == decs[0][3] and not verb and warns == 0
+            if not good:
+                report('accepted', 'decode accepted the reference but the result / cursor / diagnostics are %r / %d / %d' % (r, idx, warns))
+            else:
+                res.query('unsat')
+        else:
+            # verbatim: exactly the first character is consumed and returned
+            r = contracts.strval(exe, q, q.result)
+            good = idx == 1 and len(verb) == 1 and isinstance(r, SeqV) and len(r.items) == 1 and z3.eq(r.items[0], cs[0])
+            if not good:
+                report('verbatim', 'the reference is rejected but the result / cursor are %r / %d' % (q.result, idx))
+            else:
+                res.query('unsat')
+            # a rejected well-formed reference (decode said no) must be diagnosed
+            if decs and warns != 1:
+                report('undiagnosed', 'decode rejected the reference but %d diagnostics are produced' % warns)
+    res.functions.append({'fn': 'StrName::parse_next_entity + {closure#0} (parse/tag.rs)', 'max_chars': L, 'paths': len(done), 'queries': nq,
+                          'contracts': sorted(exe.stats.get('contracts_used', {}))})
+    log('[C12] M12d parse_next_entity L=%d: %d paths, %d candidate deviations' % (L, len(done), len(pending)))
+    return nq, pending
+
+
 def replay_entities(kinds):
     """static text made of entity references through the real pipeline; reference: numeric = the scalar value (kept verbatim and
     diagnosed when invalid), named = the HTML5 table of Python's standard library"""
@@ -782,6 +906,9 @@ def main(tier):
     na = run_m12a(res, mod, tier)
     nb, pend_b = m12b(res, mod, tier)
     nc, pend_c = m12c(res, mod, tier)
+    nd, pend_d = m12d(res, mod, tier)
+    nc += nd
+    pend_c = pend_c + pend_d
     seen = set()
     for cls, what, s0, kind in pend_c:
         if cls in seen:
